@@ -167,9 +167,9 @@ Record rall := mkRall { ra_buf : Z; ra_total : Z; ra_a : Z; ra_c : Z; ra_h : Z }
 
 (* sim::http_proxy *)
 Record proxy := mkProxy {
-  px_node : Z; px_writing : bool; px_cin : list Z; px_sout : list Z; px_close : bool
+  px_node : Z; px_writing : bool; px_cin : list Z; px_sout : list Z; px_close : bool; px_resolving : bool
 }.
-#[export] Instance eta_proxy : Settable _ := settable! mkProxy <px_node; px_writing; px_cin; px_sout; px_close>.
+#[export] Instance eta_proxy : Settable _ := settable! mkProxy <px_node; px_writing; px_cin; px_sout; px_close; px_resolving>.
 
 Record net := mkNet {
   w_sinks : zmap sink; w_next_sink : Z;
